@@ -18,6 +18,17 @@ def idx (s : List Char) (i : Nat) : Except PyErr Char :=
   | some c => pure c
   | none => throw (.raised "IndexError" "string index out of range")
 
+/-- a resource as `traverse_resource` sees it: whether `COLLECTION_RESOURCE_TYPE` is among its
+    resource types, and what `members()` yields -/
+inductive ResTree
+  | node (isCollection : Bool) (members : List (String × ResTree))
+
+def ResTree.isCollection : ResTree → Bool
+  | .node c _ => c
+
+def ResTree.members : ResTree → List (String × ResTree)
+  | .node _ m => m
+
 /-- truthiness of an `Optional[str]` (a request header): `None` and `""` are false -/
 def otruthy (x : Option (List Char)) : Bool :=
   match x with
